@@ -68,6 +68,24 @@ theorem leftover_param_rejected (id : String) (fields : List Gen.FieldSpec) (ps 
     .error s!"unknown format argument `{id},{String.ofList ((splitOnChar ':' p).headD [])}`" := by
   rw [hfind]
 
+/-- **a parameter given twice is rejected** (finding F74, repaired): once a key is in the map, another part with that key
+    is an invalid format argument - so no value is ever dropped unchecked -/
+theorem duplicate_param_rejected (id : String) (p k v : List Char) (rest : List (List Char)) (acc : Params)
+    (hs : splitOnChar ':' p = [k, v]) (hd : (acc.get (String.ofList k)).isSome = true) :
+    collectParams id (p :: rest) acc = .error s!"invalid format argument `{id},{String.ofList p}`" := by
+  rw [collectParams, hs]
+  simp only [hd, if_true]
+
+theorem duplicate_bare_param_rejected (id : String) (p k : List Char) (rest : List (List Char)) (acc : Params)
+    (hs : splitOnChar ':' p = [k]) (hd : (acc.get (String.ofList k)).isSome = true) :
+    collectParams id (p :: rest) acc = .error s!"invalid format argument `{id},{String.ofList p}`" := by
+  rw [collectParams, hs]
+  simp only [hd, if_true]
+
+/-- a key that is new to the map is inserted and stays retrievable -/
+theorem params_get_insert (ps : Params) (k v : String) : (ps.insert k v).get k = some v := by
+  simp [Params.insert, Params.get]
+
 /-- a value that fails its validator is rejected -/
 theorem invalid_value_rejected (id : String) (f : Gen.FieldSpec) (rest : List Gen.FieldSpec) (ps : Params)
     (acc : List (String × Nat)) (pname value : String) (v : Nat)
